@@ -33,25 +33,15 @@ func c07(c *Ctx) {
 		fNoSum := lookupField(ax.Pkg, "histValues", "noSum")
 		val := fn.Obj.Type().(*types.Signature).Params().At(1)
 		bin, sum, nb := ax.Func("(*buckets).bin"), ax.Func("(*buckets).sum"), ax.Func("newBuckets")
-		// idx := sort.SearchFloat64s(s.bounds, float64(value))
+		// idx := <lower-bound search of value in s.bounds> (library call, sort.Search with the defining predicate, or a helper
+		// of the package whose single return is one of those)
 		var idx types.Object
 		inspectNoLit(fn.Body(), func(n ast.Node) bool {
 			as, ok := n.(*ast.AssignStmt)
 			if !ok || len(as.Rhs) != 1 {
 				return true
 			}
-			call, ok := unparen(as.Rhs[0]).(*ast.CallExpr)
-			if !ok || len(call.Args) != 2 || !isField(info, call.Args[0], fBounds) {
-				return true
-			}
-			arg := unparen(call.Args[1])
-			if conv, ok := arg.(*ast.CallExpr); ok && len(conv.Args) == 1 {
-				arg = unparen(conv.Args[0])
-			}
-			if !sameVar(info, arg, val) {
-				return true
-			}
-			if isCallTo(info, call, "sort.SearchFloat64s") || (isCallTo(info, call, "slices.BinarySearch") && len(as.Lhs) == 2) {
+			if lowerBoundSearch(ax, fn, as.Rhs[0], fBounds, func(e ast.Expr) bool { return sameVar(info, e, val) }, 1) {
 				idx = objOf(info, as.Lhs[0])
 			}
 			return true
@@ -436,6 +426,82 @@ func c07(c *Ctx) {
 		c.Check(good, "R5", "aggregate|(*expoHistogram).measure|record dominated by !IsNaN and !IsInf", at(ax.M, fn.Pos()), "non-finite values never reach the bucket arithmetic", "NaN/Inf reach getBin (undefined bucket index, scale collapse)")
 	}
 
+	c.Rule("R8", "E10 type width + E3 must-pass", "exponential buckets: the bin-window arithmetic of scaleChange is carried out in a 64-bit integer on every platform (bins span more than 2^31 at scale 20); a window grown inside spare capacity is zeroed before use (down-scaling leaves stale counts behind len)", 3)
+	if fn := c.Fn(ax, "R8", "(*expoHistogramDataPoint).scaleChange"); fn != nil {
+		sizes := ax.Pkg.TypesSizes
+		bad := ""
+		n := 0
+		inspectNoLit(fn.Body(), func(nd ast.Node) bool {
+			be, ok := nd.(*ast.BinaryExpr)
+			if !ok || (be.Op != token.ADD && be.Op != token.SUB) {
+				return true
+			}
+			tv, has := info.Types[be]
+			if !has || tv.Value != nil {
+				return true
+			}
+			b, isB := tv.Type.Underlying().(*types.Basic)
+			if !isB || b.Info()&types.IsInteger == 0 {
+				return true
+			}
+			n++
+			if sizes != nil && sizes.Sizeof(tv.Type) < 8 {
+				bad = exprStr(be) + " is computed in " + tv.Type.String() + " (" + itoa(int(sizes.Sizeof(tv.Type))*8) + " bits on this platform)"
+			}
+			return true
+		})
+		c.Check(bad == "" && n >= 2, "R8", "aggregate|(*expoHistogramDataPoint).scaleChange|window arithmetic in 64 bits", at(ax.M, fn.Pos()), itoa(n)+" additions/subtractions, all 64-bit",
+			"the distance between two bins can exceed 2^31 (scale 20: a near-maximal and a subnormal value of one sign): "+bad+" wraps, scaleChange answers 0 and the bucket window is grown instead of down-scaled (panic / far more than MaxSize buckets)")
+	}
+	if fn := c.Fn(ax, "R8", "(*expoBuckets).record"); fn != nil {
+		g := ax.FG(fn)
+		fCounts := lookupField(ax.Pkg, "expoBuckets", "counts")
+		isCounts := func(e ast.Expr) bool { return isField(info, e, fCounts) }
+		// growth inside capacity: counts = counts[:E] (no low bound) — everything else allocates zeroed memory
+		grows := g.Match(func(n ast.Node) bool {
+			r := assignRHS(n, isCounts)
+			if r == nil {
+				return false
+			}
+			se, ok := unparen(r).(*ast.SliceExpr)
+			return ok && isCounts(se.X) && se.Low == nil && se.High != nil
+		})
+		zeroes := toSet(g.Match(func(n ast.Node) bool {
+			switch s := n.(type) {
+			case *ast.AssignStmt:
+				if len(s.Lhs) == 1 && len(s.Rhs) == 1 {
+					if ie, ok := unparen(s.Lhs[0]).(*ast.IndexExpr); ok && isCounts(ie.X) && g.InCycle(g.NodeOf(s)) {
+						if v, isC := constInt(info, s.Rhs[0]); isC && v == 0 {
+							return true
+						}
+					}
+				}
+			case *ast.CallExpr:
+				if builtinName(info, s) == "clear" && len(s.Args) == 1 {
+					if se, ok := unparen(s.Args[0]).(*ast.SliceExpr); ok && isCounts(se.X) {
+						return true
+					}
+				}
+			}
+			return false
+		}))
+		for _, x := range grows {
+			// a zeroing construct (element stores of 0 in a loop, or clear of a sub-slice) can follow before the function returns
+			after, _ := g.Reach([]*GNode{x}, nil, nil)
+			has := false
+			for z := range zeroes {
+				if after[z] {
+					has = true
+				}
+			}
+			c.Check(has, "R8", "aggregate|(*expoBuckets).record|window grown within capacity ("+exprStr(assignRHS(x.N, isCounts))+") is zeroed", at(ax.M, x.N.Pos()), "re-slice followed by a zeroing loop/clear",
+				"the window is re-sliced into spare capacity without zeroing the exposed slots: counts left behind by an earlier down-scale reappear (bucket counts sum to more than Count)")
+		}
+		if len(grows) < 2 {
+			c.Undecided("R8", "aggregate|(*expoBuckets).record|growth sites", at(ax.M, fn.Pos()), itoa(len(grows))+" in-capacity growth sites found, 2 confirmed by reading")
+		}
+	}
+
 	c.Rule("R7", "E4 role agreement", "in the exponential collect methods every statement that fills PositiveBucket reads posBuckets only and every statement that fills NegativeBucket reads negBuckets only", 2)
 	ruleSignRoles(c, ax, "R7")
 
@@ -563,4 +629,98 @@ func ruleSignRoles(c *Ctx, ax *PkgIndex, rule string) {
 			"a statement fills one sign's output bucket from the other sign's state (at "+joinStr(bad)+"): negative and positive bucket counts are swapped or duplicated, buckets no longer add up to count")
 	}
 
+}
+
+// lowerBoundSearch: is e "the smallest index i with bounds[i] ≥ value" (len(bounds) when there is none), i.e. the
+// upper-inclusive bucket index? Accepted forms: sort.SearchFloat64s(bounds, v), slices.BinarySearch(bounds, v) (first result),
+// sort.Search(len(bounds), func(i int) bool { return bounds[i] >= v }) and equivalent spellings of the predicate, and a call of
+// a declared function of the package whose only return is such an expression over its own parameter. v is the value, possibly
+// converted to float64, possibly through a local with a single definition.
+func lowerBoundSearch(ix *PkgIndex, fn *FuncInfo, e ast.Expr, fBounds *types.Var, isVal func(ast.Expr) bool, depth int) bool {
+	info := ix.Pkg.TypesInfo
+	g := ix.FG(fn)
+	var isV func(x ast.Expr, d int) bool
+	isV = func(x ast.Expr, d int) bool {
+		x = unparen(x)
+		if isVal(x) {
+			return true
+		}
+		if conv, ok := x.(*ast.CallExpr); ok && len(conv.Args) == 1 {
+			if tv, has := info.Types[conv.Fun]; has && tv.IsType() {
+				return isV(conv.Args[0], d)
+			}
+		}
+		if id, ok := x.(*ast.Ident); ok && d < 3 {
+			if def := g.LocalDef(info.Uses[id]); def != nil {
+				return isV(def, d+1)
+			}
+		}
+		return false
+	}
+	isB := func(x ast.Expr) bool { return isField(info, x, fBounds) }
+	call, ok := unparen(e).(*ast.CallExpr)
+	if !ok {
+		return false
+	}
+	if (isCallTo(info, call, "sort.SearchFloat64s") || isCallTo(info, call, "slices.BinarySearch")) && len(call.Args) == 2 {
+		return isB(call.Args[0]) && isV(call.Args[1], 0)
+	}
+	if isCallTo(info, call, "sort.Search") && len(call.Args) == 2 {
+		if !isLenOf(info, call.Args[0], isB) {
+			return false
+		}
+		lit, ok := unparen(call.Args[1]).(*ast.FuncLit)
+		if !ok || len(lit.Body.List) != 1 || lit.Type.Params.NumFields() != 1 {
+			return false
+		}
+		rs, ok := lit.Body.List[0].(*ast.ReturnStmt)
+		if !ok || len(rs.Results) != 1 {
+			return false
+		}
+		iv := info.Defs[lit.Type.Params.List[0].Names[0]]
+		isAt := func(x ast.Expr) bool {
+			ie, ok := unparen(x).(*ast.IndexExpr)
+			return ok && isB(ie.X) && iv != nil && sameVar(info, ie.Index, iv)
+		}
+		l, op, r, ok := cmpNorm(rs.Results[0], 1)
+		if !ok {
+			// !(bounds[i] < v)
+			if ue, isNot := unparen(rs.Results[0]).(*ast.UnaryExpr); isNot && ue.Op == token.NOT {
+				l, op, r, ok = cmpNorm(ue.X, -1)
+			}
+		}
+		if !ok {
+			return false
+		}
+		return (isAt(l) && op == token.GEQ && isV(r, 0)) || (isV(l, 0) && op == token.LEQ && isAt(r))
+	}
+	// helper of the package
+	if depth > 0 {
+		if h := ix.declByObj(callee(info, call)); h != nil && h != fn {
+			ps := h.Obj.Type().(*types.Signature).Params()
+			// the argument carrying the value
+			vi := -1
+			for i, a := range call.Args {
+				if isV(a, 0) {
+					vi = i
+				}
+			}
+			if vi < 0 || vi >= ps.Len() {
+				return false
+			}
+			hp := ps.At(vi)
+			var rets []*ast.ReturnStmt
+			inspectNoLit(h.Body(), func(n ast.Node) bool {
+				if rs, ok := n.(*ast.ReturnStmt); ok {
+					rets = append(rets, rs)
+				}
+				return true
+			})
+			if len(rets) != 1 || len(rets[0].Results) != 1 {
+				return false
+			}
+			return lowerBoundSearch(ix, h, rets[0].Results[0], fBounds, func(x ast.Expr) bool { return sameVar(info, x, hp) }, depth-1)
+		}
+	}
+	return false
 }
